@@ -608,7 +608,7 @@ pub fn run_c10(ctx: &Ctx, rep: &mut Report) {
             for (sig, detail) in problems {
                 rep.violation(format!("c10:{:?}:{}", variant, sig), format!("{:?}: {}", variant, detail), w(&resp));
             }
-            if rep.want_sample() && rng.chance(1, 100) {
+            if rng.chance(1, 100) && rep.want_sample() {
                 let ww = w(&resp);
                 rep.sample(|| ww);
             }
